@@ -102,6 +102,8 @@ type Program struct {
 	TypeIDs              TypeReg
 	strIDs               map[string]int
 	renameCache          map[*FuncInfo]map[string]string
+	sigRenameCache       map[*FuncInfo]map[string]string
+	counterCache         map[*FuncInfo]map[string]int
 	repair               map[string]*repairState // functions being re-verified with re-bound loop invariants (repair.go)
 }
 
@@ -160,6 +162,7 @@ type Unit struct {
 	entryPC       []Term
 	usesLocks     bool
 	knownLits     map[string]*litInfo
+	specLoopOrd   int // 1 + ordinal of the loop whose clauses are being evaluated (0: none)
 	heldLits      []*litInfo // literals handed to callees that only store them ("opt holds-callbacks")
 	methodConsts  map[string]bool
 	recvActualTy  types.Type
@@ -1163,6 +1166,15 @@ type loopInfo struct {
 	hasAlloc bool
 }
 
+// while the clauses of a loop block are evaluated: the ordinal of that loop (-1 otherwise)
+func (u *Unit) enterLoopSpec(blk *Block) func() {
+	save := u.specLoopOrd
+	ord := -1
+	fmt.Sscanf(blk.Sub, "loop %d", &ord)
+	u.specLoopOrd = ord + 1
+	return func() { u.specLoopOrd = save }
+}
+
 func (u *Unit) loopOrdinal(s ast.Stmt) int {
 	if n, ok := u.loops[s]; ok {
 		return n
@@ -1453,6 +1465,7 @@ func (u *Unit) checkInvariants(env *Env, blk *Block, kind string, pos token.Pos,
 	if blk == nil {
 		return
 	}
+	defer u.enterLoopSpec(blk)()
 	rs := u.Prog.repair[u.FI.Key]
 	for i, c0 := range blk.Of("invariant") {
 		if c0.Label == "" {
@@ -1482,6 +1495,7 @@ func (u *Unit) assumeInvariants(env *Env, blk *Block) {
 	if blk == nil {
 		return
 	}
+	defer u.enterLoopSpec(blk)()
 	rs := u.Prog.repair[u.FI.Key]
 	for _, c := range blk.Of("invariant") {
 		if rs != nil && strings.HasPrefix(c.Label, "L") {
@@ -1586,7 +1600,21 @@ func (u *Unit) execFor(st *ast.ForStmt, env *Env, label string) []Outcome {
 	u.checkInvariants(env, blk, "inv-init", st.Pos(), lname)
 	li := u.scanLoop(st.Body, st.Post, st.Cond)
 	li.modVars = append(li.modVars, u.ghostsSetIn(st)...)
+	var lower Term
+	if ivar != nil && st.Post != nil {
+		// "for i := e; ...; i++" whose body never assigns i: i never drops below its initial value (what a range loop gives for free)
+		if inc, ok := st.Post.(*ast.IncDecStmt); ok && inc.Tok == token.INC && u.keyObj(inc.X) == ivar && !assignsVar(u.Info, st.Body, ivar) {
+			if t, ok := env.vars[ivar]; ok && t.Sort == SInt {
+				lower = t
+			}
+		}
+	}
 	u.havocLoop(env, li)
+	if lower.S != "" {
+		if t, ok := env.vars[ivar]; ok && t.Sort == SInt {
+			env.assume(le(lower, t))
+		}
+	}
 	setI(env)
 	cut := len(env.pc)
 	u.assumeInvariants(env, blk)
@@ -1843,4 +1871,29 @@ func nodeString(fset *token.FileSet, n ast.Node) string {
 	var b strings.Builder
 	printerFprint(&b, fset, n)
 	return b.String()
+}
+
+
+func assignsVar(info *types.Info, body ast.Node, v types.Object) bool {
+	found := false
+	ast.Inspect(body, func(n ast.Node) bool {
+		var lhs []ast.Expr
+		switch st := n.(type) {
+		case *ast.AssignStmt:
+			lhs = st.Lhs
+		case *ast.IncDecStmt:
+			lhs = []ast.Expr{st.X}
+		case *ast.UnaryExpr:
+			if st.Op == token.AND {
+				lhs = []ast.Expr{st.X}
+			}
+		}
+		for _, l := range lhs {
+			if id, ok := unparen(l).(*ast.Ident); ok && (info.Uses[id] == v || info.Defs[id] == v) {
+				found = true
+			}
+		}
+		return true
+	})
+	return found
 }
